@@ -63,6 +63,11 @@ def split_lenient(line):
     return r[1], {k: canon_param(v) if isinstance(v, list) else v for k, v in r[2].items()}, r[3]
 
 
+# Windows display names other producers write as TZID (CLDR windowsZones, territory 001) - the few the generator uses
+WINDOWS_NAMES = {"Eastern Standard Time": "America/New_York", "W. Europe Standard Time": "Europe/Berlin", "Tokyo Standard Time": "Asia/Tokyo",
+                 "GMT Standard Time": "Europe/London"}
+
+
 class Zones:
     """tz lookup for the expected observation: the active provider's own data (S6), custom fixed-offset zones from the text."""
     _known = {}          # (provider, cleaned id) -> tzinfo or None   (misses are expensive: cache them too)
@@ -87,6 +92,9 @@ class Zones:
                     tz = zoneinfo.ZoneInfo(clean)
                 except (zoneinfo.ZoneInfoNotFoundError, ValueError, OSError):
                     tz = None
+            if tz is None and clean in WINDOWS_NAMES:
+                Zones._known[k] = None
+                tz = self._provider_zone(WINDOWS_NAMES[clean])
             Zones._known[k] = tz
         return Zones._known[k]
 
